@@ -108,9 +108,15 @@ func (t *target) maxDur() time.Duration {
 }
 
 type dnsEntry struct {
-	fail bool
-	out  []string
+	fail      bool
+	out       []string
+	peer      int
+	delay     time.Duration // the lookup takes this long (the dial worker waits for it)
+	ignoreCtx bool          // ... and does not notice a cancelled context before it is over
+	coldOnly  bool          // only the first lookup is slow (the answer is cached afterwards)
 }
+
+var dnsDelays = []time.Duration{0, 0, 0, 10 * time.Millisecond, 100 * time.Millisecond, time.Second}
 
 type peerSpec struct {
 	idx     int
@@ -155,14 +161,15 @@ func (r *dialRec) String() string {
 }
 
 type world struct {
-	o       *common.Outcome
-	peers   []*peerSpec
-	ids     []peer.ID // target peers
-	qID     peer.ID   // the honest other peer
-	relayID peer.ID
-	targets map[string]*target // by canonical address (all peers; addresses are disjoint)
-	dns     map[string]dnsEntry
-	recs    []*dialRec
+	o        *common.Outcome
+	peers    []*peerSpec
+	ids      []peer.ID // target peers
+	qID      peer.ID   // the honest other peer
+	relayID  peer.ID
+	targets  map[string]*target // by canonical address (all peers; addresses are disjoint)
+	dns      map[string]dnsEntry
+	dnsSeen  map[string]bool
+	recs     []*dialRec
 	dnsCalls int
 }
 
@@ -306,7 +313,9 @@ func (w *world) genPeer(g simrt.Gen, pi, n int, exact, noise, allFail bool, ownA
 			ps.raw = append(ps.raw, add(t).key)
 		case 5: // DNS name resolving to TCP addresses
 			host := fmt.Sprintf("h%dx%d.test", pi, i)
-			e := dnsEntry{}
+			e := dnsEntry{peer: pi, delay: dnsDelays[g.Int(len(dnsDelays))]}
+			e.ignoreCtx = e.delay > 0 && g.Bool()
+			e.coldOnly = e.delay > 0 && g.Bool()
 			switch v := g.Int(4); {
 			case v == 2:
 				e.fail = true
@@ -366,6 +375,31 @@ func (w *world) genPeer(g simrt.Gen, pi, n int, exact, noise, allFail bool, ownA
 	return ps
 }
 
+// plantSlowName adds a name whose first lookup is slow and deaf to cancellation, and two hanging
+// addresses, to the peer's set ("slow worker" stratum).
+func (w *world) plantSlowName(g simrt.Gen, ps *peerSpec) {
+	pi := ps.idx
+	add := func(t *target) {
+		t.key = canon(t.key)
+		t.peer = pi
+		w.targets[t.key] = t
+		ps.targets = append(ps.targets, t)
+		ps.known[t.key] = true
+	}
+	rip := fmt.Sprintf("10.%d.2.1", pi+1)
+	tt := &target{kind: tTCP, key: fmt.Sprintf("/ip4/%s/tcp/4001", rip), ip: rip, port: 4001, script: sRefuse}
+	add(tt)
+	host := fmt.Sprintf("slow%d.test", pi)
+	w.dns[host] = dnsEntry{peer: pi, out: []string{tt.key}, delay: time.Second, ignoreCtx: true, coldOnly: true}
+	ps.raw = append(ps.raw, fmt.Sprintf("/dns4/%s/tcp/4001", host))
+	for j := 0; j < 2; j++ {
+		ip, public := ipFor(pi, 20+j, g.Int(2))
+		t := &target{kind: tQUIC, key: fmt.Sprintf("/ip4/%s/udp/%d/quic-v1", ip, 4001+j), ip: ip, port: 4001 + j, public: public, script: sHang}
+		add(t)
+		ps.raw = append(ps.raw, t.key)
+	}
+}
+
 // ---- scripted DNS resolver -----------------------------------------------------------------
 
 type resolver struct{ w *world }
@@ -374,13 +408,26 @@ func (r *resolver) ResolveDNSAddr(_ context.Context, _ peer.ID, maddr ma.Multiad
 	return []ma.Multiaddr{maddr}, nil
 }
 
-func (r *resolver) ResolveDNSComponent(_ context.Context, maddr ma.Multiaddr, limit int) ([]ma.Multiaddr, error) {
+func (r *resolver) ResolveDNSComponent(ctx context.Context, maddr ma.Multiaddr, limit int) ([]ma.Multiaddr, error) {
 	r.w.dnsCalls++
 	host, err := maddr.ValueForProtocol(ma.P_DNS4)
 	if err != nil {
 		return nil, err
 	}
 	e, ok := r.w.dns[host]
+	if ok && e.delay > 0 && !(e.coldOnly && r.w.dnsSeen[host]) {
+		r.w.dnsSeen[host] = true
+		if e.ignoreCtx {
+			simrt.TimeSleep(e.delay)
+		} else {
+			tm := time.NewTimer(e.delay)
+			cancelled := simrt.Select("resolver", false, simrt.RecvCase(ctx.Done()), simrt.RecvCase(tm.C)) == 0
+			tm.Stop()
+			if cancelled {
+				return nil, ctx.Err()
+			}
+		}
+	}
 	if !ok || e.fail {
 		return nil, errors.New("scripted resolver: no such host")
 	}
